@@ -16,6 +16,8 @@ package netpoll
 //@ ghost field linkBufferNode.ord real
 //@ ghost field linkBufferNode.sp int
 //@ ghost field linkBufferNode.kids int
+//@ ghost field UnsafeLinkBuffer.peekpos int
+//   peekpos(b)  stream position of cachePeek[0]: a non-empty cachePeek always starts at the read position
 //   kids(n)  number of live Slice/Refer children that hold a reference on n (refer == 1 + kids while n is chained)
 //@ ghost map pool int
 //   pool[a]  of the byte array with id a: 0 not a pool block (caller memory, dirtmake), 1 taken from mcache and
@@ -54,7 +56,7 @@ package netpoll
 //@ pred managedok(n *linkBufferNode) = n.buf#base == 0 && n.buf#arr != 0 && allocated(n.buf) && cap(n.buf) > 0 && blknode[n.buf#arr] == n
 //@     && (cap(n.buf) <= mallocMax ==> pool[n.buf#arr] == 1)
 //@ pred wfpool(b *UnsafeLinkBuffer) = forall n *linkBufferNode :: inb(b, n) && n.mode & 1 == 0 ==> managedok(n)
-//@ pred wfpeek(b *UnsafeLinkBuffer) = len(b.cachePeek) >= 0 && len(b.cachePeek) <= cap(b.cachePeek)
+//@ pred wfpeek(b *UnsafeLinkBuffer) = len(b.cachePeek) >= 0 && len(b.cachePeek) <= cap(b.cachePeek) && (len(b.cachePeek) > 0 ==> b.peekpos == b.read.sp + b.read.off)
 //@     && (b.cachePeek != nil ==> b.cachePeek#base == 0 && allocated(b.cachePeek) && cap(b.cachePeek) > 0 && blknode[b.cachePeek#arr] == 0 && (cap(b.cachePeek) <= mallocMax ==> pool[b.cachePeek#arr] == 1))
 //@ pred cacheok(b *UnsafeLinkBuffer, i int) = b.caches[i]#base == 0 && b.caches[i]#arr != 0 && allocated(b.caches[i]) && cap(b.caches[i]) > 0
 //@     && cap(b.caches[i]) <= mallocMax && pool[b.caches[i]#arr] == 1 && blknode[b.caches[i]#arr] == 0 && cacheown[b.caches[i]#arr] == b && cacheidx[b.caches[i]#arr] == i
@@ -170,7 +172,8 @@ package netpoll
 //@   ensures old(n > 0 && b.length >= n) ==> p#arr == b.cachePeek#arr || (p#arr == b.read.buf#arr && p#base == b.read.buf#base + b.read.off && b.read.mode & 2 != 0)
 //@   ensures forall m *linkBufferNode :: !inb(b, m) ==> m.mode == old(m.mode)
 //@   ensures forall a int :: a > 0 && wasalloc(a) && a != old(b.cachePeek#arr) ==> pool[a] == old(pool[a]) && blknode[a] == old(blknode[a]) && cacheown[a] == old(cacheown[a]) && cacheidx[a] == old(cacheidx[a])
-//@   modifies b.read, b.cachePeek, linkBufferNode.mode, mem, pool, blknode, cacheown, cacheidx
+//@   modifies b.read, b.cachePeek, b.peekpos, linkBufferNode.mode, mem, pool, blknode, cacheown, cacheidx
+//@   ghost after store cachePeek#3: b.peekpos = b.read.sp + b.read.off
 //@   loop 1 invariant len(p) <= n && (scanned <= len(p) || len(p) == n) && 0 <= scanned && p#arr != 0 && len(p) <= cap(p) && n <= cap(p)
 //@   loop 1 invariant p#arr == b.cachePeek#arr && p#base == 0 && cap(p) == cap(b.cachePeek)
 //@   loop 1 invariant len(p) < n ==> inb(b, node) && node.ord >= b.read.ord && node.ord <= b.flush.ord && node.sp + node.off == rpos(b) + scanned
@@ -506,3 +509,33 @@ package netpoll
 //@   loop 1 invariant forall a int :: a > 0 && wasalloc(a) ==> blknode[a] == old(blknode[a]) && cacheown[a] == old(cacheown[a]) && cacheidx[a] == old(cacheidx[a])
 //@   loop 1 invariant forall m *linkBufferNode :: inb(b, m) ==> old(m.own) == b
 //@   loop 1 invariant forall a int :: pool[a] != old(pool[a]) ==> (old(blknode[a]) != nil && old(blknode[a].own) == b) || old(cacheown[a]) == b || a == old(b.cachePeek#arr)
+
+//@ func (*UnsafeLinkBuffer).readCopy
+//@   property C01 C02 C03
+//@   requires wf(b)
+//@   ensures wf(b) && others(b) && 0 <= n && n <= len(p) && n <= old(b.length) && (n == len(p) || n == old(b.length))
+//@   ensures rpos(b) == old(rpos(b)) + n && b.length == old(b.length) - n && fpos(b) == old(fpos(b)) && b.mallocSize == old(b.mallocSize)
+//@   ensures forall a int :: a > 0 && wasalloc(a) ==> blknode[a] == old(blknode[a]) && cacheown[a] == old(cacheown[a]) && cacheidx[a] == old(cacheidx[a])
+//@   ensures forall a int :: pool[a] != old(pool[a]) ==> old(blknode[a]) != nil && old(blknode[a].own) == b
+//@   modifies b.length, b.read, b.head, b.cachePeek, linkBufferNode.off, linkBufferNode.refer, linkBufferNode.buf, linkBufferNode.origin, linkBufferNode.next, linkBufferNode.own, pool, mem
+//@   ghost before call (*linkBufferNode).Release#1: assert forall x *linkBufferNode :: inb(b, x) && x.ord < cur.ord ==> prev != nil && x.ord <= prev.ord; assert forall x *linkBufferNode :: inb(b, x) && x.next == cur ==> x == prev
+//@   ghost after call (*linkBufferNode).Release#1: cur.own = nil
+//@   loop 1 invariant ack > 0 && n >= 0 && n + ack == l && l <= len(p) && wfs(b) && l > 0
+//@   loop 1 invariant b.read.ord >= old(b.read.ord) && rpos(b) + ack == old(rpos(b)) + l && fpos(b) - rpos(b) >= ack
+//@   loop 1 invariant b.length == old(b.length) - l && b.mallocSize == old(b.mallocSize) && fpos(b) == old(fpos(b)) && mpos(b) == old(mpos(b)) && l <= old(b.length) && (l == len(p) || l == old(b.length))
+//@   loop 1 invariant forall m *linkBufferNode :: !inb(b, m) ==> m.off == old(m.off)
+//@   loop 1 invariant forall m *linkBufferNode :: m.own == old(m.own)
+//@   loop 2 invariant wfs(b) && rpos(b) == old(rpos(b)) + l && n == l && b.read.ord >= old(b.read.ord)
+//@   loop 2 invariant b.length == old(b.length) - l && b.mallocSize == old(b.mallocSize) && fpos(b) == old(fpos(b)) && mpos(b) == old(mpos(b)) && l <= old(b.length) && (l == len(p) || l == old(b.length)) && l <= len(p) && l > 0
+//@   loop 2 invariant forall m *linkBufferNode :: !inb(b, m) ==> m.off == old(m.off)
+//@   loop 2 invariant forall m *linkBufferNode :: m.own == old(m.own)
+//@   loop 3 invariant wfmono(b) && wfcaches(b) && wflin(b) && wfclosed(b) && wfuniq(b) && wfnode(b) && wfshape(b) && wfpos(b) && wfref(b) && wfpool(b) && wfpeek(b) && others(b)
+//@   loop 3 invariant inb(b, b.read) && inb(b, b.flush) && inb(b, b.write) && b.read.ord <= b.flush.ord && b.flush.ord <= b.write.ord
+//@   loop 3 invariant rpos(b) == old(rpos(b)) + l && n == l && b.length == old(b.length) - l && b.mallocSize == old(b.mallocSize) && fpos(b) == old(fpos(b)) && mpos(b) == old(mpos(b)) && l <= old(b.length) && (l == len(p) || l == old(b.length)) && l <= len(p) && l > 0
+//@   loop 3 invariant cur == b.read || (inb(b, cur) && cur.ord < b.read.ord)
+//@   loop 3 invariant prev == nil ==> newHead == b.read && (forall m *linkBufferNode :: inb(b, m) ==> m.ord >= cur.ord || cur == b.read && m.ord >= b.read.ord)
+//@   loop 3 invariant prev != nil ==> inb(b, prev) && inb(b, newHead) && newHead.ord <= prev.ord && prev.next == cur && (cur == b.read || prev.ord < cur.ord) && prev.ord < b.read.ord
+//@   loop 3 invariant prev != nil ==> (forall m *linkBufferNode :: inb(b, m) ==> m.ord >= newHead.ord) && (forall m *linkBufferNode :: inb(b, m) && m.ord > prev.ord ==> m.ord >= cur.ord)
+//@   loop 3 invariant forall a int :: a > 0 && wasalloc(a) ==> blknode[a] == old(blknode[a]) && cacheown[a] == old(cacheown[a]) && cacheidx[a] == old(cacheidx[a])
+//@   loop 3 invariant forall a int :: pool[a] != old(pool[a]) ==> old(blknode[a]) != nil && old(blknode[a].own) == b
+//@   loop 3 invariant forall m *linkBufferNode :: inb(b, m) ==> old(m.own) == b
